@@ -33,6 +33,8 @@ func runC06(c *an.Ctx) {
 	filterOnlyByType(c, "R06j", "FilterTasks")
 	pendingResetRule(c, "R06k")
 	r06l(c)
+	// round 8
+	r06m(c)
 }
 
 func before(a, b ssa.Instruction) bool { return an.CanReach(a, b) && !an.CanReach(b, a) }
@@ -582,11 +584,26 @@ func r06i(c *an.Ctx) {
 		if len(r.Results) != 1 {
 			continue
 		}
-		refusal := false
-		if mi, ok := an.RetVal(r, 0).(*ssa.MakeInterface); ok {
+		// a refusal: the returned error is one of the two refusal types - directly, or through a variable (the result of
+		// an extracted check) on a path where that variable is known non-nil
+		rv := an.RetVal(r, 0)
+		vals := roleValues(rv, map[ssa.Value]bool{})
+		refusal := len(vals) > 0
+		for _, v := range vals {
+			if an.IsNilConst(v) {
+				if !an.KnownNonNil(r.Block(), rv) {
+					refusal = false
+				}
+				continue
+			}
+			mi, ok := v.(*ssa.MakeInterface)
+			if !ok {
+				refusal = false
+				continue
+			}
 			t := mi.X.Type().String()
-			if strings.HasSuffix(t, "TaskLockedError") || strings.HasSuffix(t, "TaskNotFoundError") {
-				refusal = true
+			if !strings.HasSuffix(t, "TaskLockedError") && !strings.HasSuffix(t, "TaskNotFoundError") {
+				refusal = false
 			}
 		}
 		if refusal {
